@@ -3,4 +3,4 @@
 set -e
 cd "$(dirname "$0")"
 coqc -Q ../coq Rux ../coq/Extract.v > extract.log 2>&1 || { cat extract.log; exit 1; }
-ocamlfind ocamlopt -w -a -package str -linkpkg model.mli model.ml sexp.ml conv.ml rp.ml rt.ml c16.ml driver.ml -o driver 2>&1
+ocamlfind ocamlopt -w -a -package str -linkpkg model.mli model.ml sexp.ml conv.ml rp.ml rt.ml c16.ml c15.ml driver.ml -o driver 2>&1
